@@ -751,7 +751,7 @@ func ParentMain(opt Options) int {
 	// Crashes and persistent hangs are violations of the property whose workload was running.
 	for _, cr := range all.crashes {
 		r := Result{CaseID: cr.caseID, Verdict: Violated}
-		r.Findings = []Finding{{Key: fmt.Sprintf("%s/crash/%s/%s", opt.PropID, crashSignature(cr.stderr), crashSite(cr.stderr)), Detail: "child process died: " + firstLines(panicTail(cr.stderr), 12)}}
+		r.Findings = []Finding{{Key: fmt.Sprintf("%s/crash/%s/%s", opt.PropID, crashSignature(cr.stderr), crashSite(cr.stderr)), Detail: "child process died: " + lastInput(cr.stderr) + firstLines(panicTail(cr.stderr), 12)}}
 		r.Log = strings.Split(panicTail(cr.stderr), "\n")
 		if len(r.Log) > 120 {
 			r.Log = r.Log[:120]
@@ -929,6 +929,26 @@ func ParentMain(opt Options) int {
 	fmt.Printf("SUMMARY property=%s tier=%s seed=%d cases=%d verdicts=%v distinct_nontrivial=%d violations=%d known=%d wall=%.1fs\n",
 		opt.PropID, opt.Tier, opt.Seed, len(all.results), verdicts, len(fps), nViol, len(knownHit), wall)
 	return exit
+}
+
+// lastInput returns the last "VERIF-INPUT ..." line a child printed before it died (hostile input about to be sent).
+func lastInput(stderr string) string {
+	end := len(stderr)
+	if idx := panicRe.FindStringIndex(stderr); idx != nil {
+		end = idx[0]
+	}
+	i := strings.LastIndex(stderr[:end], "VERIF-INPUT ")
+	if i < 0 {
+		return ""
+	}
+	line := stderr[i:end]
+	if j := strings.IndexByte(line, '\n'); j >= 0 {
+		line = line[:j]
+	}
+	if len(line) > 600 {
+		line = line[:600]
+	}
+	return "[" + line + "] "
 }
 
 func panicTail(stderr string) string {
